@@ -95,6 +95,21 @@ theorem rates_undefined_zero : ∀ v : UInt8,
     (okVal (opusToHz v) = some 0 ↔ v.toNat ∉ [8, 12, 16, 24, 48]) := by
   apply forall_u8; decide +kernel
 
+/-- The AAC → FLV conversion helpers over all 256 argument values: every defined AAC sampling-rate index
+(0..12) is mapped to a defined FLV code resp. a defined Opus code — so `ToHz`/`OpusToHz` of the result is
+one of the definitions' frequencies, never 0 — every other index to `AudioSamplingRateForbidden`; channel
+configurations 1..7 to mono/stereo, every other value to `AudioChannelsForbidden`. -/
+theorem from_helpers : ∀ a : UInt8,
+    (a.toNat ≤ 12 →
+      samplingRateFrom a ≤ 3 ∧ (okVal (toHz (UInt8.ofNat (samplingRateFrom a)))) ∈ [some 5512, some 11025, some 22050, some 44100] ∧
+      (okVal (opusToHz (UInt8.ofNat (samplingRateOpusFrom a)))) ∈ [some 8000, some 12000, some 16000, some 24000, some 48000]) ∧
+    (12 < a.toNat →
+      samplingRateFrom a = Gen.Flv.AudioSamplingRateForbidden ∧
+      samplingRateOpusFrom a = Gen.Flv.AudioSamplingRateForbidden) ∧
+    (1 ≤ a.toNat ∧ a.toNat ≤ 7 → channelsFrom a < 2) ∧
+    (a.toNat = 0 ∨ 7 < a.toNat → channelsFrom a = Gen.Flv.AudioChannelsForbidden) := by
+  apply forall_u8; decide +kernel
+
 /-- No byte string makes either decoder panic. -/
 theorem decoders_never_panic (t : Bytes) : decodeAudio t ≠ .panic ∧ decodeVideo t ≠ .panic :=
   ⟨decodeAudio_ne_panic t, decodeVideo_ne_panic t⟩
